@@ -211,6 +211,14 @@ def judge_c07(case, side, res):
 def judge_c08(case, side, res):
     v = make_judge(None, None, whole=True)(case, side, res)
     st = side.get("status")
+    if case.get("stream") == "cyclic" and st == "ok":
+        # circular declarations: the code reports them (fix 9b943db); the model's resolver runs on fuel and
+        # reports exhaustion instead, so the two outputs are not compared - the property is decided
+        # on the real run alone: it returned, and with resolveType on it said why
+        v["relevant"] = True; v["corr_ok"] = True; v["why"] = None
+        if '"resolveType": true' in case["options"] and not any("ircular" in d for d in side.get("diags", [])):
+            v["ok"] = False; v["oracle_why"] = "a circular type declaration was neither followed to a crash nor reported"
+        return v
     if st in ("panic", "abort", "timeout"):
         v["relevant"] = True; v["ok"] = False
         v["oracle_why"] = "the transform did not return: %s %s" % (st, side.get("panic", ""))
@@ -225,7 +233,7 @@ def judge_c08(case, side, res):
 
 
 def CYCLE_KNOWN(case):
-    return "cyclic_type_declaration" if "cyclic" in case.get("feat", []) else None
+    return None
 
 
 def c08_fresh_process_extra(seed, tier):
